@@ -84,6 +84,7 @@ func runC17(c *Ctx) {
 	c.Guard(r1, up, "decoded passthru payload used", `^return:local:payloadTyped\.Arguments, local:payloadTyped\.ArgumentsKw, nil$|^return:.*payloadTyped.*Arguments`, 1, clause("payload pointer not nil", F(`^\(local:payloadTyped == nil\)$`), F(`^\(.*payloadTyped.* == nil\)$`)))
 	rulePayloadDecodeTarget(c, r1)
 	ruleNoNilMessage(c, r1) // the client dereferences what the transport delivers
+	ruleClientLoggerDefault(c, r1)
 	c.R.Floor(r1, 9)
 
 	const r2 = "C17.R2 session lock released on every path, never held across a blocking operation"
@@ -250,6 +251,8 @@ func runC17(c *Ctx) {
 		}
 	}
 	c.R.Check(nSend >= 5, r7, "client", "peer sends of the invocation goroutines enumerated", "-", fmt.Sprintf("found %d", nSend))
+	c.HasNot(r7, "transport.(*websocketPeer).sendHandler$1", "the ping handler (run by the receive goroutine) never blocks on the send goroutine", `^send:\^pongs<-`)
+	c.Has(r7, "transport.(*websocketPeer).sendHandler$1", "ping handed to the send goroutine without waiting", `^select\{send:\^pongs<-%m;default\}$`, 1)
 	c.R.Floor(r7, 6)
 
 	const r9 = "C17.R9 an API call never blocks on the transport alone"
